@@ -1,7 +1,14 @@
 /-
 Props/C13.lean — property theorems for C13 (generation is deterministic and target-independent).
+
+The part of C13 that is a statement about the two parsers: the go/ast parser (directory and single-file
+targets, parser_ast.go) and the go/types parser (package target, parser_loader.go), as modelled in
+Gen/Parsers.lean, produce THE SAME parsed type tree for a declared type — under the decidable hypothesis
+`DeclOK` (Proofs/C13Hyps.lean), whose essential clause is that no slice/map literal mentions more than one
+declared type. Without that clause they differ (`repo_not_correct`, finding `parser-typename-qualification`).
 -/
-import InspectorModel.Gen.Parsers
+import InspectorModel.Proofs.C13
+set_option linter.unusedSimpArgs false
 namespace Inspector.C13
 
 /-- Rendering a type whose tokens contain no package-qualified name does not depend on whether a
@@ -15,5 +22,188 @@ theorem render_no_qual (p : Pkg) (ts : List TTok) (h : ∀ t ∈ ts, ∃ s, t = 
     subst hs
     simp only [renderDropFirst]
     rw [ih (fun t ht => h t (by simp [ht])) a b]
+
+/-- With at most one declared type mentioned, `strings.Replace(t.String(), pkgDot, "", 1)` yields the type as
+the source spells it (which is what `composeAstTypeName` builds on the go/ast side). -/
+theorem typeString_single_named (p : Pkg) (e : TExpr) (h : quals p e ≤ 1) : typeStringLocal p e = plain e :=
+  typeStringLocal_plain p e h
+
+/-- **C13, parser agreement.** For every package `p`, every declared type `name` and every `f`: if the
+declaration satisfies `DeclOK p name f` (see `AgreeOK` for the clauses: resolvable within fuel `f`, at most one
+declared type per slice/map literal, struct literals only as definitions of declared types, no declared
+pointer types, no `**T`, no empty identifiers), then with any fuel `≥ 2 f + 2` the go/ast parser model and the
+go/types parser model return the same tree. (The go/types model spends up to two units of fuel per level —
+`parsePkgE` → `parsePkgU` — hence the factor 2.) -/
+theorem parsers_agree (p : Pkg) (name : String) (f fuel : Nat) (h : DeclOK p name f = true)
+    (hfuel : 2 * f + 2 ≤ fuel) : parseAstDecl p name fuel = parsePkgDecl p name fuel := by
+  unfold parseAstDecl parsePkgDecl
+  unfold DeclOK at h
+  cases hl : p.lookup name with
+  | none => rfl
+  | some d =>
+    simp only [hl] at h
+    simp only []
+    obtain ⟨g, rfl⟩ : ∃ g, fuel = g + 1 := ⟨fuel - 1, by omega⟩
+    rw [parsePkgE, hl]
+    simp only []
+    rw [ast_stable p f true d h (g + 1) (by omega)]
+    have hu := (agree_all p f).2.2.1 d g name p.name h (by omega)
+    rw [hu]
+    generalize parseAstE p f d = a
+    cases a <;> rfl
+
+/-- The fuel is immaterial once it suffices: the go/ast parser's answer does not change with more fuel … -/
+theorem parseAstDecl_stable (p : Pkg) (name : String) (f fuel : Nat) (h : DeclOK p name f = true)
+    (hfuel : f ≤ fuel) : parseAstDecl p name fuel = parseAstDecl p name f := by
+  unfold parseAstDecl
+  unfold DeclOK at h
+  cases hl : p.lookup name with
+  | none => rfl
+  | some d =>
+    simp only [hl] at h
+    simp only []
+    rw [ast_stable p f true d h fuel hfuel]
+
+/-- … hence neither does the go/types parser's, and the two agree at independently chosen fuels. -/
+theorem parsers_agree_any_fuel (p : Pkg) (name : String) (f fuelAst fuelPkg : Nat) (h : DeclOK p name f = true)
+    (ha : f ≤ fuelAst) (hp : 2 * f + 2 ≤ fuelPkg) :
+    parseAstDecl p name fuelAst = parsePkgDecl p name fuelPkg := by
+  rw [← parsers_agree p name f fuelPkg h hp, parseAstDecl_stable p name f fuelAst h ha,
+    parseAstDecl_stable p name f fuelPkg h (by omega)]
+
+/-- The form the driver evaluates (`opParsers`: fuel 64, trees compared with `==`): whenever
+`DeclOK pk name 31` holds, the comparison `ma == mp` of the two model trees is `true`, so the verdict
+`known parser-typename-qualification` can only arise on a declaration that violates `DeclOK`. -/
+theorem parsers_agree_driver (pk : Pkg) (name : String) (ma mp : Node) (h : DeclOK pk name 31 = true)
+    (ha : parseAstDecl pk name 64 = some ma) (hp : parsePkgDecl pk name 64 = some mp) : (ma == mp) = true := by
+  have := parsers_agree pk name 31 64 h (by omega)
+  rw [ha, hp] at this
+  cases this
+  exact Node.beq_refl ma
+
+/-! ## the tree as it is: the hypothesis is needed -/
+
+/-- `type K string; type V int32; type T struct{ F map[K]V }`. -/
+def kvPkg : Pkg :=
+  { name := "pk", path := "example.com/pk",
+    decls := [("K", .name "string"), ("V", .name "int32"), ("T", .struct [("F", .map (.name "K") (.name "V"))])] }
+
+/-- Finding `parser-typename-qualification`: on `T` the go/ast parser records `typn = "map[K]V"` for field `F`,
+the go/types parser `typn = "map[K]example.com/pk.V"` (only the first qualifier is removed); the declaration
+violates `DeclOK` at every fuel that would otherwise suffice, in the `quals ≤ 1` clause only. -/
+theorem repo_not_correct : parseAstDecl kvPkg "T" 64 ≠ parsePkgDecl kvPkg "T" 64 := by
+  simp [parseAstDecl, parsePkgDecl, kvPkg, Pkg.lookup, List.find?, parseAstE, parseAstFields, parsePkgE,
+    parsePkgU, parsePkgFields, Node.typn, Node.info, setName, setTypn, setPkg, withComposed, composeTypn,
+    typeStringLocal, typeToks, renderDropFirst, Node.ptr]
+
+theorem repo_not_correct_typn :
+    (parseAstDecl kvPkg "T" 64).map (fun n => match n with | .struct _ [c] => c.typn | _ => "") = some "map[K]V" ∧
+    (parsePkgDecl kvPkg "T" 64).map (fun n => match n with | .struct _ [c] => c.typn | _ => "") =
+      some "map[K]example.com/pk.V" := by
+  constructor <;>
+  simp [parseAstDecl, parsePkgDecl, kvPkg, Pkg.lookup, List.find?, parseAstE, parseAstFields, parsePkgE,
+    parsePkgU, parsePkgFields, Node.typn, Node.info, setName, setTypn, setPkg, withComposed, composeTypn,
+    typeStringLocal, typeToks, renderDropFirst, Node.ptr]
+
+theorem repo_not_correct_violates : DeclOK kvPkg "T" 31 = false ∧ quals kvPkg (.map (.name "K") (.name "V")) = 2 := by
+  decide
+
+/-- The other two declarations of the same package satisfy the hypothesis. -/
+theorem kv_others_ok : DeclOK kvPkg "K" 31 = true ∧ DeclOK kvPkg "V" 31 = true := by decide
+
+/-! ### the other clauses of `AgreeOK` are needed too (the model parsers differ when one is dropped) -/
+
+section ClausesNeeded
+
+/-- Evaluate both model parsers on a closed package. -/
+macro "eval_parsers" : tactic =>
+  `(tactic| simp [parseAstDecl, parsePkgDecl, Pkg.lookup, List.find?, parseAstE, parseAstFields, parsePkgE,
+      parsePkgU, parsePkgFields, underlyingOf, Node.typn, Node.info, setName, setTypn, setPkg, withComposed,
+      composeTypn, typeStringLocal, typeToks, renderDropFirst, dropLeadingStar_star, Node.ptr, Node.withPtr])
+
+/-- `type T struct{ F struct{ X int } }`: an anonymous struct field. -/
+def anonStructPkg : Pkg :=
+  { name := "pk", path := "example.com/pk", decls := [("T", .struct [("F", .struct [("X", .name "int")])])] }
+theorem anon_struct_differs : parseAstDecl anonStructPkg "T" 64 ≠ parsePkgDecl anonStructPkg "T" 64 := by
+  unfold anonStructPkg; eval_parsers
+theorem anon_struct_violates : DeclOK anonStructPkg "T" 31 = false := by decide
+
+/-- `type S struct{ A int }; type P *S; type T struct{ F []P }`: a declared pointer type inside a literal
+(go/ast composes `[]*P`, go/types prints `[]P`). -/
+def namedPtrPkg : Pkg :=
+  { name := "pk", path := "example.com/pk",
+    decls := [("S", .struct [("A", .name "int")]), ("P", .star (.name "S")), ("T", .struct [("F", .slice (.name "P"))])] }
+theorem named_ptr_differs : parseAstDecl namedPtrPkg "T" 64 ≠ parsePkgDecl namedPtrPkg "T" 64 := by
+  unfold namedPtrPkg; eval_parsers
+theorem named_ptr_violates : DeclOK namedPtrPkg "T" 31 = false := by decide
+
+/-- `type T struct{ F **int }`. -/
+def ptrPtrPkg : Pkg :=
+  { name := "pk", path := "example.com/pk", decls := [("T", .struct [("F", .star (.star (.name "int")))])] }
+theorem ptr_ptr_differs : parseAstDecl ptrPtrPkg "T" 64 ≠ parsePkgDecl ptrPtrPkg "T" 64 := by
+  unfold ptrPtrPkg
+  simp [parseAstDecl, parsePkgDecl, Pkg.lookup, List.find?, parseAstE, parseAstFields, parsePkgE,
+      parsePkgU, parsePkgFields, underlyingOf, Node.typn, Node.info, setName, setTypn, setPkg, withComposed,
+      composeTypn, typeStringLocal, typeToks, renderDropFirst, Node.ptr, Node.withPtr]
+  rw [show ("**int" : String) = "*" ++ "*int" by decide, dropLeadingStar_star]
+  decide
+theorem ptr_ptr_violates : DeclOK ptrPtrPkg "T" 31 = false := by decide
+
+/-- A recursive type (`type T struct{ Next *T }`) exhausts any fuel: the hypothesis fails at the driver's fuel. -/
+def recPkg : Pkg :=
+  { name := "pk", path := "example.com/pk", decls := [("T", .struct [("Next", .star (.name "T"))])] }
+theorem rec_violates : DeclOK recPkg "T" 31 = false := by decide
+
+end ClausesNeeded
+
+/-! ## non-vacuity -/
+
+section NonVacuity
+
+/-- The declarations of /repo/testobj/testobj.go (`TestPermission`, `TestFlag`, `TestHistory`, `TestFinance`,
+`TestObject`) plus two shapes of testobj1.go (`TestFloatPtrSlice`, a `*[]*TestHistory` field and a
+`*map[*float64]*TestHistory` field). -/
+def testobjPkg : Pkg :=
+  { name := "testobj", path := "github.com/koykov/inspector/testobj",
+    decls :=
+      [("TestPermission", .map (.name "int32") (.name "bool")),
+       ("TestFlag", .map (.name "string") (.name "int32")),
+       ("TestFloatPtrSlice", .slice (.star (.name "float32"))),
+       ("TestHistory", .struct [("DateUnix", .name "int64"), ("Cost", .name "float64"), ("Comment", .slice (.name "byte"))]),
+       ("TestFinance", .struct [("MoneyIn", .name "float64"), ("AllowBuy", .name "bool"),
+                                ("History", .slice (.name "TestHistory"))]),
+       ("TestObject", .struct
+          [("Id", .name "string"), ("Name", .slice (.name "byte")), ("Status", .name "int32"),
+           ("Permission", .star (.name "TestPermission")),
+           ("HistoryTree", .map (.name "string") (.star (.name "TestHistory"))),
+           ("Flags", .name "TestFlag"),
+           ("Finance", .star (.name "TestFinance")),
+           ("Floats", .star (.name "TestFloatPtrSlice")),
+           ("Hs", .star (.slice (.star (.name "TestHistory")))),
+           ("Hm", .star (.map (.star (.name "float64")) (.star (.name "TestHistory"))))])] }
+
+/-- Every declaration of the package satisfies the hypothesis at the fuel the driver uses. -/
+theorem testobj_ok : (testobjPkg.decls.all fun d => DeclOK testobjPkg d.1 31) = true := by decide
+
+/-- … so the theorem applies: the two parsers agree on `TestObject` (and on every other declaration). -/
+theorem testobj_agree : parseAstDecl testobjPkg "TestObject" 64 = parsePkgDecl testobjPkg "TestObject" 64 :=
+  parsers_agree testobjPkg "TestObject" 31 64 (by decide) (by decide)
+
+/-- The common tree is a proper one (not the out-of-fuel placeholder): computed directly, field `HistoryTree`
+has `typn = "map[string]*TestHistory"` in both, and `Hm` is a pointer with `typn = "map[*float64]*TestHistory"`. -/
+theorem testobj_tree :
+    (parsePkgDecl testobjPkg "TestObject" 26).map
+        (fun n => match n with | .struct i ch => (i.typn, ch.map (fun c => (c.name, c.ptr, c.typn))) | _ => ("", [])) =
+      some ("TestObject",
+        [("Id", false, "string"), ("Name", false, "[]byte"), ("Status", false, "int32"),
+         ("Permission", true, "TestPermission"), ("HistoryTree", false, "map[string]*TestHistory"),
+         ("Flags", false, "TestFlag"), ("Finance", true, "TestFinance"), ("Floats", true, "TestFloatPtrSlice"),
+         ("Hs", true, "[]*TestHistory"), ("Hm", true, "map[*float64]*TestHistory")]) := by
+  rw [← parsers_agree_any_fuel testobjPkg "TestObject" 12 12 26 (by decide) (by decide) (by decide)]
+  unfold testobjPkg
+  simp [parseAstDecl, Pkg.lookup, List.find?, parseAstE, parseAstFields, Node.typn, Node.name, Node.info, setName,
+    setTypn, setPkg, withComposed, composeTypn, Node.ptr, Node.withPtr]
+
+end NonVacuity
 
 end Inspector.C13
